@@ -62,8 +62,9 @@ def solve(assertions, timeout_ms=60000, cross=True):
 
 class Obligation:
     """collects the VCs of one obligation and reduces them to one verdict"""
-    def __init__(self, ctx, name, bound="", encodes=()):
+    def __init__(self, ctx, name, bound="", encodes=(), fallback_native=None):
         self.ctx, self.name, self.bound, self.encodes = ctx, name, bound, list(encodes)
+        self.fallback_native = fallback_native
         self.queries = 0
         self.solver_s = 0.0
         self.assertions = 0
@@ -146,6 +147,14 @@ class Obligation:
             else:
                 status = "inconclusive"
                 reason = "E2 counterexample without native replay: " + reason
+            if status == "inconclusive" and self.fallback_native and self.ctx.native_replay is not None:
+                # API-level confirmation: the native battery must exhibit a property violation on the same tree
+                dev = self.ctx.native_replay(self.fallback_native, [], "dev")
+                self.ctx.native_runs += 1
+                if dev.get("outcome") == "panic":
+                    status = "violation"
+                    native = {"native_dev": dev, "native_release": {}, "playback_values": [], "harness": self.fallback_native}
+                    reason = "confirmed at API level by %s (%s); solver counterexample: %s" % (self.fallback_native, dev.get("message", "")[:300], reason)
             return self.ctx.record(self.name, status, reason, stats, self.bound, enc, mtxt, native)
         if inc:
             return self.ctx.record(self.name, "inconclusive", "; ".join(p[1] for p in inc)[:500], stats, self.bound, enc)
